@@ -270,7 +270,7 @@ where
         }
         monitors(h, &format!("proof_U{}", l), &tsh, &[], &[]);
     }
-    for m in [0usize, 1, 2, 13, 14, 15, 16, 31, 63] {
+    for m in [0usize, 1, 2, 13, 14, 15, 16, 31, 63, 257, 300] {
         let cm = rand_msgs(h, m);
         let cmsc = BBSplusMessage::messages_to_scalar::<CS>(&cm, CS::API_ID_BLIND).unwrap();
         let mut tsh = Vec::new();
@@ -397,11 +397,34 @@ where
             if let Some(p) = honest_proof::<CS>(h, &pk, &s.to_bytes(), hdr.as_deref(), ph.as_deref(), &msgs, &d, true) {
                 let dm = pick_msgs(&msgs, &d);
                 proofverify::<CS>(h, &pk, &p, hdr.as_deref(), None, Some(&dm), Some(&d));
+                let o = proofverify::<CS>(h, &pk, &p, hdr.as_deref(), ph.as_deref(), Some(&[b"x".to_vec()]), Some(&[l + 3]));
+                h.expect(!o.is_panic() && !o.is_ok(), "C10.bad_indexes", "proof_verify did not refuse an out-of-range disclosed index", &[h.last()]);
             }
             let cm = rand_msgs(h, l % 3);
             if let Some(run) = honest_issue::<CS>(h, &sk, &pk, hdr.as_deref(), &msgs, &cm, true) {
                 let dc = rand_subset(h, cm.len());
-                honest_blind_proof::<CS>(h, &pk, &run, hdr.as_deref(), ph.as_deref(), &msgs, &cm, &d, &dc, true);
+                if let Some(bp) = honest_blind_proof::<CS>(h, &pk, &run, hdr.as_deref(), ph.as_deref(), &msgs, &cm, &d, &dc, true) {
+                    // error outcomes are part of conformance too: index lists the draft refuses (out of range in
+                    // either half, repeated, more indexes than messages) must be refused, never crash
+                    let dm = pick_msgs(&msgs, &d);
+                    let dcm = pick_msgs(&cm, &dc);
+                    let big = l + cm.len() + 9;
+                    let mut bad_idx = d.clone();
+                    bad_idx.insert(0, big);
+                    let mut bad_dm = dm.clone();
+                    bad_dm.insert(0, b"x".to_vec());
+                    let variants: Vec<(Vec<usize>, Vec<Vec<u8>>, Vec<usize>, Vec<Vec<u8>>)> = vec![
+                        (bad_idx.clone(), bad_dm.clone(), dc.clone(), dcm.clone()),
+                        (d.clone(), dm.clone(), { let mut x = dc.clone(); x.push(big); x }, { let mut x = dcm.clone(); x.push(b"y".to_vec()); x }),
+                        (vec![big], vec![b"x".to_vec()], vec![0], vec![b"y".to_vec()]),
+                        (vec![usize::MAX], vec![b"x".to_vec()], vec![], vec![]),
+                        (vec![], vec![], vec![usize::MAX - l], vec![b"y".to_vec()]),
+                    ];
+                    for (i1, m1, i2, m2) in variants {
+                        let o = blindproofverify::<CS>(h, &pk, &bp, hdr.as_deref(), ph.as_deref(), Some(l), Some(&m1), Some(&m2), Some(&i1), Some(&i2));
+                        h.expect(!o.is_panic() && !o.is_ok(), "C10.bad_indexes", "blind_proof_verify did not refuse an index list the draft refuses", &[h.last()]);
+                    }
+                }
                 let mut bl = run.blind;
                 bl[31] ^= 2;
                 verifyblind::<CS>(h, &pk, &run.sig, hdr.as_deref(), Some(&msgs), Some(&cm), Some(&bl));
@@ -573,6 +596,29 @@ where
                 }
             }
             fams.push((format!("{}:{}", h.suite, nm), enc));
+        }
+    }
+    // LONG api ids (the derived DSTs exceed 255 octets and go through the oversize-DST rule): ids that share a
+    // long common prefix, or differ only in their last octet, still give unrelated generator sets
+    {
+        let base = vec![0x61u8; 300];
+        let mut last = base.clone();
+        last[299] = 0x62;
+        let ids: Vec<(&str, Vec<u8>)> = vec![("a*300", base.clone()), ("a*299+b", last), ("a*236", base[..236].to_vec()), ("a*237", base[..237].to_vec()), ("a*255", base[..255].to_vec()), ("a*256", base[..256].to_vec())];
+        let mut sets: Vec<(String, Vec<Vec<u8>>)> = Vec::new();
+        for (nm, api) in &ids {
+            if let Some(g) = gens::<CS>(h, Some(api), 4).ok() {
+                sets.push((nm.to_string(), g.values.iter().map(g1hex).collect()));
+            } else {
+                h.expect(false, "C11.long_api_err", &format!("generator creation failed for api id {}", nm), &[h.last()]);
+            }
+        }
+        h.stat("C11.long_api_ids");
+        for a in 0..sets.len() {
+            for b in a + 1..sets.len() {
+                let sa: HashSet<&Vec<u8>> = sets[a].1.iter().collect();
+                h.expect(!sets[b].1.iter().any(|x| sa.contains(x)), "C11.gen_disjoint_long_api", &format!("generator sets for the api ids {} and {} share an element", sets[a].0, sets[b].0), &[]);
+            }
         }
     }
     // application-chosen / absent api ids, which do not embed the suite: the two suites must still
